@@ -21,7 +21,7 @@ MENUS = [
     ("clip", [5.0, 1.0, 0.5]),
     ("spread", [0.0, 0.01]),
     ("rate", [None, "series"]),
-    ("bounds", [None, "start", "end"]),
+    ("bounds", [None, "start", "end", "endhol", "starthol"]),
     ("folds", [None, "two"]),
     ("delay", [1, 0]),
 ]
@@ -76,6 +76,10 @@ def build(cfg):
         kw["start"] = idx[3]
     elif cfg["bounds"] == "end":
         kw["end"] = idx[-3]
+    elif cfg["bounds"] == "endhol":
+        kw["end"] = pd.Timestamp("2022-01-17")      # the range ends exactly on an exchange holiday
+    elif cfg["bounds"] == "starthol":
+        kw["start"] = pd.Timestamp("2022-01-17")    # ... or starts on it
     if cfg["folds"] == "two":
         cut = 8 if len(idx) <= 16 else (2 * len(idx)) // 3
         kw["folds"] = {"training-set": [idx[0].to_pydatetime(), idx[cut].to_pydatetime()],
@@ -158,7 +162,7 @@ def check_point(env, cfg, Xin, Yin, rate, obs, prev_now, first):
 def independent_X(cfg, Xin, Yin, env):
     """For transformer=None re-derive the published table: union index, forward fill, zero fill, clip."""
     X = Xin.reindex(Xin.index.union(Yin.index))
-    X = X.loc[:env.Y.index[-1]] if cfg["bounds"] == "end" else X.loc[:Yin.last_valid_index()]
+    X = X.loc[:env.Y.index[-1]] if cfg["bounds"] in ("end", "endhol") else X.loc[:Yin.last_valid_index()]
     X = X.ffill().fillna(0.0).clip(-cfg["clip"], cfg["clip"])
     return X
 
@@ -182,7 +186,11 @@ def run_config(cfg):
     for fold in folds:
         try:
             obs = env.reset(fold=fold)
-        except Exception as ex:
+        except BaseException as ex:
+            lo, hi = env._transmitter._folds[fold]
+            inside = [t for t in env._transmitter.timesteps if lo <= t <= hi]
+            if not inside:
+                continue    # the fold holds no timestep of this table (bounds cut it away): refusing is fine
             msgs.append("reset(%s) raised %r" % (fold, ex))
             break
         prev = None
